@@ -5,6 +5,17 @@
 
 namespace coloquinte {
 
+namespace {
+/**
+ * @brief Return whether the polarity of the cell allows it in this row
+ */
+bool rowAllowed(const DetailedPlacement &pl, int c, int row) {
+  return cellOrientationInRow(pl.cellRowPolarity(c),
+                              pl.rows()[row].orientation) !=
+         CellOrientation::INVALID;
+}
+}  // namespace
+
 DetailedPlacement DetailedPlacement::fromIspdCircuit(const Circuit &circuit) {
   // Represent fixed cells with -1 width so they are not considered
   int rowHeight = circuit.rowHeight();
@@ -327,6 +338,10 @@ bool DetailedPlacement::canInsert(int c, int row, int pred) const {
     // Do not insert before itself
     return false;
   }
+  if (!rowAllowed(*this, c, row)) {
+    // Forbidden by the row polarity of the cell
+    return false;
+  }
   return siteEnd(row, pred) - siteBegin(row, pred) >= cellWidth(c);
 }
 
@@ -336,6 +351,11 @@ bool DetailedPlacement::canSwap(int c1, int c2) const {
   }
   if (c1 == c2) {
     // Do not swap a cell with itself
+    return false;
+  }
+  if (!rowAllowed(*this, c1, cellRow(c2)) ||
+      !rowAllowed(*this, c2, cellRow(c1))) {
+    // Forbidden by the row polarity of the cells
     return false;
   }
   if (cellPred(c1) == c2 || cellPred(c2) == c1) {
